@@ -92,9 +92,24 @@ def sh(cmd, **kw):
 
 def main():
     muts = gen()
+    retry = opt("--retry")
+    if retry:
+        # re-run the mutants a previous sweep recorded as missed (lines are re-located by content in the current sources)
+        muts = []
+        for l in open(retry):
+            m = json.loads(l)
+            if m.get("result") != "missed":
+                continue
+            lines = open(os.path.join(SRC, m["file"])).read().split("\n")
+            cand = [i for i, x in enumerate(lines) if x == m["old"]]
+            if not cand:
+                continue
+            i = min(cand, key=lambda i: abs(i - (m["line"] - 1)))
+            muts.append({"file": m["file"], "line": i + 1, "op": m["op"], "old": m["old"], "new": m["new"]})
     if OPS:
         muts = [m for m in muts if m["op"] in OPS.split(",")]
-    random.Random(int(SEED)).shuffle(muts)
+    if not retry:
+        random.Random(int(SEED)).shuffle(muts)
     muts = muts[:MAX]
     print(f"{len(muts)} mutants; props {PROPS}", flush=True)
     os.makedirs(os.path.join(ROOT, "logs"), exist_ok=True)
